@@ -683,6 +683,26 @@ func (CheckpointEngine) Execute(sc *core.Scenario, st *core.Stats) (*core.Violat
 				v = start(meta)
 			case "concurrent":
 				i1, i2 := op.Idx%n, op.Idx2%n
+				if op.Idx%3 == 0 && n >= 2 {
+					// Aim at the end game: first restore everything else, so that the two
+					// interleaved calls are the last two pending chunks.
+					for j := 0; j < n; j++ {
+						if j == i1 || j == i2 || done[j] {
+							continue
+						}
+						fin, err := restoreOne(j, chunks[j], meta)
+						if err != nil {
+							v = cpViol("honest-chunk-rejected", fmt.Sprintf("step %d: honest chunk %d rejected: %v", stepIdx, j, err))
+							return
+						}
+						done[j] = true
+						if fin {
+							finished = true
+							return
+						}
+					}
+					st.Inc("probe.interleaved_last_two_chunks")
+				}
 				if done[i1] || done[i2] || i1 == i2 {
 					return
 				}
@@ -704,6 +724,13 @@ func (CheckpointEngine) Execute(sc *core.Scenario, st *core.Stats) (*core.Violat
 				}
 				interleaved++
 				st.Inc("probe.interleaved_restore_calls")
+				if fin2 {
+					// The inner call returned while the outer call's chunk was still in flight (parked
+					// at the hook, not yet marked restored): reporting completion now makes callers
+					// finalize a restore that is still importing.
+					v = cpViol("restore-done-while-chunk-in-flight", fmt.Sprintf("step %d: RestoreChunk(%d) reported the restore complete while RestoreChunk(%d) was still in flight at %s", stepIdx, i2, i1, op.At))
+					return
+				}
 				if err1 != nil || err2 != nil {
 					v = cpViol("honest-chunk-rejected", fmt.Sprintf("step %d: concurrent RestoreChunk(%d) and RestoreChunk(%d) interleaved at %s failed: %v / %v", stepIdx, i1, i2, op.At, err1, err2))
 					return
